@@ -210,6 +210,67 @@ pub fn run(ctx: &Ctx) -> Report {
         ops.push("D".into());
         big_cases.push(Case { op: "tcp".into(), data: vec![], args: vec![], text: ops });
     }
+    // payloads that are (or look like) STUN messages, as they are in real use of this buffer: whole
+    // reference-built messages, and the magic cookie at every payload offset 0..=8, in frames of 6..40
+    // bytes, alone / followed by other frames, pushed in one piece, byte by byte, and split at every
+    // position with a pull in between
+    {
+        use crate::refimpl::wire;
+        let mut payloads: Vec<Vec<u8>> = Vec::new();
+        let mut m = wire::encode_header(0, 1, 0x0102_0304_0506_0708_090A_0B0C, 0);
+        payloads.push(m.clone());
+        wire::append_raw(&mut m, 0x8022, b"stun");
+        payloads.push(m.clone());
+        wire::append_fp(&mut m);
+        payloads.push(m.clone());
+        for off in 0..=8usize {
+            for total in [off + 4, off + 6, 18, 20, 24, 40] {
+                if total < off + 4 {
+                    continue;
+                }
+                for lead in [0x00u8, 0x01, 0xFF] {
+                    let mut p = vec![lead; total];
+                    if off >= 2 {
+                        p[0] = 0;
+                        p[1] = 4; // a small "declared length" in front of the cookie
+                    }
+                    p[off..off + 4].copy_from_slice(&[0x21, 0x12, 0xA4, 0x42]);
+                    payloads.push(p);
+                }
+            }
+        }
+        payloads.sort();
+        payloads.dedup();
+        for p in &payloads {
+            for tail in [vec![], vec![vec![1u8, 2, 3]], vec![vec![], vec![9u8; 30]]] {
+                let mut frames = vec![p.clone()];
+                frames.extend(tail);
+                let st = frames_to_stream(&frames);
+                // one piece
+                big_cases.push(Case { op: "tcp".into(), data: vec![], args: vec![], text: vec![format!("P:{}", crate::refimpl::crypto::hex(&st)), "D".into()] });
+                // byte by byte, pulling after every byte
+                let mut ops: Vec<String> = Vec::new();
+                for b in &st {
+                    ops.push(format!("P:{b:02x}"));
+                    ops.push("L".into());
+                }
+                ops.push("D".into());
+                big_cases.push(Case { op: "tcp".into(), data: vec![], args: vec![], text: ops });
+                // every split in two, with and without a pull in between
+                for cut in 1..st.len() {
+                    for mid in ["L", "D", ""] {
+                        let mut ops = vec![format!("P:{}", crate::refimpl::crypto::hex(&st[..cut]))];
+                        if !mid.is_empty() {
+                            ops.push(mid.to_string());
+                        }
+                        ops.push(format!("P:{}", crate::refimpl::crypto::hex(&st[cut..])));
+                        ops.push("D".into());
+                        big_cases.push(Case { op: "tcp".into(), data: vec![], args: vec![], text: ops });
+                    }
+                }
+            }
+        }
+    }
     // long streams (~450 KB, 250 frames with lengths from every size class) pushed in fixed-size
     // chunks under four pull policies: thresholds of an implementation (lazy compaction, capacity
     // shrinking, cursor wrap) are crossed with data still buffered
@@ -256,7 +317,7 @@ pub fn run(ctx: &Ctx) -> Report {
     Report {
         acc,
         exhaustive: true,
-        rule: format!("all sequences of <= 3 frames with lengths from {{0,1,2,3,5}} (distinct counter contents) whose stream is <= {max_stream} bytes x every chunking (all 2^(n-1) split patterns) x pull schedules (per-chunk choice of none / one pull / pull until None then once more: exhaustive up to 5 chunks, 5 patterns above); plus frames of 65535, 65534, 256, 255, 0 bytes split around the length prefix and the frame end; a ~450 KB stream of 250 frames (lengths from 14 size classes, 0..40000) pushed in chunks of 3 / 97 / 1460 / 4096 / 16384 / 65536 / 100000 bytes under 4 pull policies; evaluations = push/pull calls, distinct_nontrivial = operation sequences"),
+        rule: format!("all sequences of <= 3 frames with lengths from {{0,1,2,3,5}} (distinct counter contents) whose stream is <= {max_stream} bytes x every chunking (all 2^(n-1) split patterns) x pull schedules (per-chunk choice of none / one pull / pull until None then once more: exhaustive up to 5 chunks, 5 patterns above); plus frames of 65535, 65534, 256, 255, 0 bytes split around the length prefix and the frame end; payloads that are STUN messages or carry the magic cookie at every offset 0..=8 (frames of 4..40 bytes, with following frames; one piece, byte by byte, every two-way split); a ~450 KB stream of 250 frames (lengths from 14 size classes, 0..40000) pushed in chunks of 3 / 97 / 1460 / 4096 / 16384 / 65536 / 100000 bytes under 4 pull policies; evaluations = push/pull calls, distinct_nontrivial = operation sequences"),
         bounds: json!({"frame_sequences": n_streams, "max_stream_bytes": max_stream, "dedup": "none (TcpBuffer's Debug hides its contents)"}),
         assumptions: vec![],
         ..Default::default()
